@@ -36,6 +36,7 @@ members: options_ %(size_member)s
 rule: options_type::iterator iter = ==> size_t iter =
 rule: iter == this->options_\\.end\\(\\) ==> iter == this->options_.n
 rule?: iter->data_size\\(\\) ==> OPT_data_size(&this->options_.e[iter])
+rule?: iter->length_field\\(\\) ==> OPT_length_field(&this->options_.e[iter])
 rule?: \\*iter\\b ==> &this->options_.e[iter]
 rule: this->options_\\.erase\\(iter\\); ==> OPTV_erase(&this->options_, iter);
 %(rm_mutant)s
@@ -75,6 +76,7 @@ sig: static void %(cls)s_internal_add_option(%(cls)s* this, const OPT* %(pn)s)
 class: %(cls)s %(hdr)s
 members: options_ %(size_member)s
 rule?: %(pn)s\\.data_size\\(\\) ==> OPT_data_size(%(pn)s)
+rule?: %(pn)s\\.length_field\\(\\) ==> OPT_length_field(%(pn)s)
 %(iadd_rules)s
 //@ endfunc
 //@ func %(src)s %(cls)s::add_option match "const option&"
@@ -89,6 +91,7 @@ class: %(cls)s %(hdr)s
 members: options_ %(size_member)s
 rule: this->options_\\.push_back\\(%(pn)s\\); ==> OPTV_push(&this->options_, %(pn)s);
 rule?: %(pn)s\\.data_size\\(\\) ==> OPT_data_size(%(pn)s)
+rule?: %(pn)s\\.length_field\\(\\) ==> OPT_length_field(%(pn)s)
 //@ endfunc'''
 
 TABLE = [
